@@ -29,7 +29,13 @@ type RawReq struct {
 	Hdrs   []KV   `json:"hdrs,omitempty"`
 	Body   RawStr `json:"body,omitempty"`
 	Note   string `json:"note,omitempty"`
+	// Chunked: the body is sent without Content-Length (chunked transfer
+	// encoding), as clients do that stream a request
+	Chunked bool `json:"chunked,omitempty"`
 }
+
+// unsizedReader hides the length of a request body from net/http.
+type unsizedReader struct{ io.Reader }
 
 // rawClient runs the raw operations of an RPC whose client is the raw peer.
 func (s *Sim) rawClient(rs *rpcState, ops []Op) {
@@ -58,7 +64,11 @@ func (s *Sim) rawOp(rs *rpcState, rq *RawReq) {
 	ev.Flags = map[string]string{}
 	err := guard(ev, func() error {
 		u := &url.URL{Scheme: "http", Host: "sim.test", Path: rq.Path}
-		req, err := http.NewRequestWithContext(rs.ctx, "POST", u.String(), bytes.NewReader([]byte(rq.Body)))
+		var body io.Reader = bytes.NewReader([]byte(rq.Body))
+		if rq.Chunked {
+			body = unsizedReader{body}
+		}
+		req, err := http.NewRequestWithContext(rs.ctx, "POST", u.String(), body)
 		if err != nil {
 			return err
 		}
@@ -480,6 +490,7 @@ func genC11(g *gen, seed int64) *Program {
 			// or answers (it gives up waiting after an hour of virtual time)
 			rq.Hdrs = append(rq.Hdrs, KV{K: "Expect", V: "100-continue"})
 		}
+		rq.Chunked = g.p(0.3)
 		// body
 		msg := g.msg()
 		if msg.Size > 300 {
